@@ -15,6 +15,7 @@ import Knee.Model.ZMethod
 import Knee.Model.Elbow
 import Knee.Model.KneedleQ
 import Knee.Model.Isodata
+import Knee.Model.Matching
 /-
 Correspondence driver.  `lake env lean --run Driver.lean` (or the compiled `driver` exe).
 Harness → driver : `CALL <fn> <arg> <arg> …`
@@ -396,6 +397,15 @@ def dispatch (out inp : IO.FS.Stream) (fn : String) (args : List String) : M Str
     let y := fun i => ys[i]?.getD 0
     let n := xs.length
     pure (showList showRat ((List.range n).map (cfdQ x y n)) ++ " " ++ showList showRat ((List.range n).map (csdQ x y n)))
+  | "match_err", [strat, ex, ey, kx, ky] =>
+    let ex ← orErr (parseList? parseRat? ex) "ex"
+    let ey ← orErr (parseList? parseRat? ey) "ey"
+    let kx ← orErr (parseList? parseRat? kx) "kx"
+    let ky ← orErr (parseList? parseRat? ky) "ky"
+    let st : Strategy := match strat with | "knees" => .knees | "expected" => .expected | "best" => .best | _ => .worst
+    let E := ex.zip ey
+    let K := kx.zip ky
+    pure (showRat (maeQ st E K) ++ " " ++ showRat (mseQ2 st E K) ++ " " ++ showRat (rmspeSqQ st E K))
   | _, _ => throw s!"unknown call {fn}/{args.length}"
 
 partial def loop (out inp : IO.FS.Stream) : IO Unit := do
